@@ -86,6 +86,16 @@ def run(tier):
         other = dict(c, n=64, T=64, seed=c["seed"] + 1, prm=dict(c["prm"], **({"nu": 2.0, "rho": 0.7} if c["algo"] in ("T_HOO", "HCT", "VHCT", "Zooming") else {})))
         sc = long[k2 % len(long)] if long else scheds[0]
         jobs.append((dict(c, id=5500000 + 8 * k2), dict(other, id=5500000 + 8 * k2 + 4), sc))
+    # one instance draws from NumPy's global generator (random cuts, random split dimension), the other does not: the
+    # second must leave the generator alone (re-seeding, set_state), or the first no longer produces its solo sequence
+    users = PC2.base_cfgs(tier, 3170000, ["T_HOO", "HCT", "DOO", "SOO", "SequOOL", "Zooming", "StoSOO"], 1 if tier == "quick" else 4, rng_free=True, seedoff=5, n_choices=(64, 100))
+    quiet = [c for c in base if c["algo"] in ("GPO", "PCT", "VPCT", "POO", "StroquOOL", "VHCT")] or base
+    for k3, c in enumerate(users):
+        kind, Kk, D = [("rbin", 2, 1), ("rkary", 3, 1), ("bin", 2, 2), ("rkary", 4, 2)][k3 % 4]
+        box = [b for b in PC2.PC.BOXES if len(b) == D][0]
+        ca = dict(c, kind=kind, K=Kk, D=D, box=box, id=5700000 + 8 * k3)
+        cb = dict(quiet[k3 % len(quiet)], id=5700000 + 8 * k3 + 4, n=100, T=100)
+        jobs.append((ca, cb, long[k3 % len(long)] if long else scheds[0]))
     res = S.pmap(PC2.run_two, jobs)
     pairs = []
     for r in res:
